@@ -391,6 +391,38 @@ def find_memo_attrs(model, ci):
                     ma.sources |= attr_reads(f2, f2.args.args[0].arg)
             ma.sources.discard(m)
             out.append(ma)
+        # lazy initialisation: ``if <self.M is missing>: self.M = <value built from other attributes>`` anywhere in the method
+        for st in walk_local(fn):
+            if not isinstance(st, ast.If):
+                continue
+            t = st.test
+            neg = None
+            if isinstance(t, ast.UnaryOp) and isinstance(t.op, ast.Not):
+                neg = _state_attr_of_test(fn, t.operand, s)
+            elif isinstance(t, ast.Compare) and len(t.ops) == 1 and isinstance(t.ops[0], (ast.Is, ast.Eq)) \
+                    and isinstance(t.comparators[0], ast.Constant) and t.comparators[0].value is None:
+                neg = _state_attr_of_test(fn, ast.Compare(left=t.left, ops=[ast.IsNot()], comparators=t.comparators, lineno=t.lineno,
+                                                          col_offset=t.col_offset), s)
+            if neg is None:
+                continue
+            stores = [a for b in st.body for a in ast.walk(b) if _is_self_attr(a, s) and isinstance(a.ctx, ast.Store) and a.attr == neg]
+            if not stores or any(ma.attr == neg and ma.meth == name for ma in out):
+                continue
+            ma = MemoAttr(ci, name, fn, neg, st)
+            # sources: attributes of self read by the guarded block (and by the methods it calls on self)
+            for b in st.body:
+                for a in ast.walk(b):
+                    if _is_self_attr(a, s) and isinstance(a.ctx, ast.Load):
+                        ma.sources.add(a.attr)
+                    if isinstance(a, ast.Call) and isinstance(a.func, ast.Attribute) and isinstance(a.func.value, ast.Name) and a.func.value.id == s:
+                        for callee in parity.ctor_path(model, ci, a.func.attr):
+                            o, f2 = model.find_method(ci, callee)
+                            if f2 is not None and f2.args.args:
+                                ma.sources |= attr_reads(f2, f2.args.args[0].arg)
+            ma.sources.discard(neg)
+            ma.sources -= set(ci.methods)
+            if ma.sources:
+                out.append(ma)
     return out
 
 
